@@ -217,7 +217,7 @@ def gen(rng, tier):
         cases.append({"stream": stream.hex(), "resp": resp, "plans": _async_plans(rng, stream, every), "cls": cls + "+async"})
 
     limit = 200
-    for k in range(40 if q else 800):
+    for k in range(40 if q else 2000):
         n = rng.choice([1, 2, 2, 3])
         s = b"".join(c19._valid_request(rng, i == n - 1, tricky_body=rng.random() < 0.2) for i in range(n))
         if rng.random() < 0.15:
